@@ -152,7 +152,7 @@ def run(chk):
     # gen_cent: the real two-pass source with every internally allocated array shared; outputs start as NaN / -1 sentinels
     import hodcommon as hc2
     shared_names = ['Nout', 'keep', 'gstart'] + [f'{t}_{c}' for t in ('lrg', 'elg', 'qso') for c in ('x', 'y', 'z', 'vx', 'vy', 'vz', 'mass', 'id')]
-    for (Hh, Tt) in ([(7, 3)] if chk.quick else [(7, 3), (5, 2), (9, 4), (3, 5)]):
+    for (Hh, Tt, origin_) in ([(7, 3, None), (6, 2, np.array([-3000.0, 10.0, 20.0]))] if chk.quick else [(7, 3, None), (6, 2, np.array([-3000.0, 10.0, 20.0])), (5, 2, None), (9, 4, np.array([-2500.0, -40.0, 7.0])), (3, 5, None)]):
         halos = hc2.make_halos(np.random.default_rng(chk.seed + Hh), Hh)
         halos['hrandoms'] = halos['hrandoms'] * 0.5
         import numba as nb
@@ -168,7 +168,7 @@ def run(chk):
             return out
         L, E, Qd = tdict(dict(hc2.LRG, ic=1.0)), tdict(dict(hc2.ELG, ic=1.0)), tdict(dict(hc2.QSO, ic=1.0))
         args = lambda: (halos['hpos'].copy(), halos['hvel'].copy(), halos['hmass'].copy(), halos['hid'].copy(), halos['hmultis'].copy(), halos['hrandoms'].copy(),
-                        halos['hveldev'].copy(), halos['hdeltac'].copy(), halos['hfenv'].copy(), halos['hshear'].copy(), L, E, Qd, True, 1.0 / hc2.VELZ2KMS, hc2.LBOX, True, True, True, Tt, None)
+                        halos['hveldev'].copy(), halos['hdeltac'].copy(), halos['hfenv'].copy(), halos['hshear'].copy(), L, E, Qd, True, 1.0 / hc2.VELZ2KMS, hc2.LBOX, True, True, True, Tt, origin_)
         try:
             refc = gen_cent(*args())
             refv = {t: {k2: np.asarray(v2) for k2, v2 in refc[i].items()} for i, t in enumerate(('LRG', 'ELG', 'QSO'))}
@@ -177,7 +177,7 @@ def run(chk):
             def build(sc, hook):
                 def share(x, nm):
                     if isinstance(x, np.ndarray) and not isinstance(x, sched.Shared):
-                        if nm not in ('Nout', 'gstart'):
+                        if nm in shared_names and nm not in ('Nout', 'gstart'):
                             x[...] = -7 if x.dtype.kind in 'iu' else np.nan
                         return sched.Shared(x, nm, sc)
                     return x
@@ -186,7 +186,7 @@ def run(chk):
                     @staticmethod
                     def empty(key_type=None, value_type=None):
                         return {}
-                fn = sched.threaded_source(gen_cent, sc, share=shared_names, overrides={'numba': NumbaStub(), 'Dict': PyDict})
+                fn = sched.threaded_source(gen_cent, sc, share='*', overrides={'numba': NumbaStub(), 'Dict': PyDict})
                 fn.__globals__['__par'] = hook(sc.par)
                 fn.__globals__['__share'] = share
                 return lambda: fn(*args())
@@ -203,7 +203,7 @@ def run(chk):
             r = sched.explore(build, check, max_schedules=8, seed=chk.seed, random_schedules=2)
             nsch += r['schedules']
             if r['problem']:
-                chk.violation('schedule-gen_cent', f'gen_cent H={Hh} Nthread={Tt}: {r["problem"]}', dict(H=Hh, T=Tt))
+                chk.violation('schedule-gen_cent' + ('-lightcone' if origin_ is not None else ''), f'gen_cent H={Hh} Nthread={Tt} origin={None if origin_ is None else origin_.tolist()}: {r["problem"]}', dict(H=Hh, T=Tt))
         except Exception as e:  # noqa
             chk.note(f'gen_cent schedule replay not available: {type(e).__name__}: {str(e)[:200]}')
     chk.part('schedule_replay', schedules=nsch)
